@@ -29,7 +29,9 @@ func init() { fw.Register(&c17{Base: Base{Id: "C17", Lvl: "exploration"}}) }
 // reparse check applies to these context-free expression kinds
 var c17Reparse = map[string]bool{"Ident": true, "BasicLit": true, "ParenExpr": true, "SelectorExpr": true, "IndexExpr": true, "SliceExpr": true, "CallExpr": true, "UnaryExpr": true,
 	"BinaryExpr": true, "StarExpr": true, "FuncLit": true, "CompositeLit": true, "SliceLit": true, "ComprehensionExpr": true, "ErrWrapExpr": true, "LambdaExpr": true,
-	"LambdaExpr2": true, "EnvExpr": true, "DomainTextLit": true, "NumberUnitLit": true, "TypeAssertExpr": true}
+	"LambdaExpr2": true, "EnvExpr": true, "DomainTextLit": true, "NumberUnitLit": true, "TypeAssertExpr": true,
+	// type expressions re-parse through ParseExpr as well (a type whose Pos skips its leading "<-" re-parses to another type)
+	"ChanType": true, "ArrayType": true, "MapType": true, "StructType": true, "InterfaceType": true}
 
 func (p *c17) Setup(env *fw.Env) error {
 	p.Env = env
